@@ -122,3 +122,6 @@ func (s *Server) C14Run(ctx context.Context, onPanic func(string)) {
 
 // C14Completion is the real HTTP handler of POST /completion.
 func (s *Server) C14Completion(w http.ResponseWriter, r *http.Request) { s.completion(w, r) }
+
+// C14Responses exposes the response channel to the harness's slow / blocked reader.
+func (q *Sequence) C14Responses() chan string { return q.responses }
